@@ -21,6 +21,9 @@ pub mod verif {
     /// Level swap events `(kind, index)`: kind 0 = swap of the non-empty
     /// levels `index` and `index + 1` begins, 1 = it ended; 2 = a
     /// `set_var_order` call chose the concurrent sort
+    ///
+    /// Further kinds: 3 = next element of the sequence (target positions of
+    /// the non-empty levels) about to be sorted; 4 = the sort returned
     pub static EVENTS: parking_lot::Mutex<Vec<(u8, u32)>> = parking_lot::Mutex::new(Vec::new());
 
     pub(super) fn event(kind: u8, index: u32) {
@@ -153,7 +156,13 @@ fn set_var_order_common<M: Manager>(
                 to_pre[u as usize].store(lp, Relaxed);
                 to_pre[l as usize].store(up, Relaxed);
             };
+            #[cfg(feature = "oxidd_verif")]
+            for &t in &ne_target_order {
+                verif::event(3, t);
+            }
             sort(manager, &mut ne_target_order, swap);
+            #[cfg(feature = "oxidd_verif")]
+            verif::event(4, 0);
 
             if from_ne.len() == target_order.len() {
                 return;
